@@ -636,7 +636,7 @@ func TestC06(t *testing.T) {
 		fmt.Println("REPLAY case passed")
 		return
 	}
-	ev.Rule("rapid: payloads of boundary-biased sizes (1,2,3,..,4095/4096/4097, 8191-8193, 65518-65521, 65519k±1, 131037-131039, up to 1 MiB quick / 8 MiB thorough), compressible or incompressible or a valid ICC profile; PNG iCCP (name 1-79 bytes, store/1/6/9/huffman-only, anywhere before IDAT), JPEG APP2 (1-255 chunks of 1..65519 bytes, ascending/descending/random order, SOF before/between/after, fillers interleaved; every permutation of <= 4 (quick) / 5 (thorough) chunks), WebP VP8X+ICCP (odd/even); no-profile variants; one damage class per case: PNG corrupt deflate (flips/truncation/adler), JPEG missing chunk / out-of-range number / inconsistent total, WebP flag without ICCP / truncated ICCP. Oracle: round trip; (nil,nil); for damage a reference model of the earliest legitimate stopping point (error mandatory before it, validity predicate after it); deflate damage judged by compress/zlib. non-trivial = distinct case with a damage class or a payload > 4096 bytes")
+	ev.Rule("rapid: payloads of boundary-biased sizes (1,2,3,..,4095/4096/4097, 8191-8193, 65518-65521, 65519k±1, 131037-131039, up to 1 MiB quick / 8 MiB thorough), compressible or incompressible or a valid ICC profile (half with random flags, intent, creator, ID; the raw bytes are read again after ICCProfile()/Description() on the same metadata value); PNG iCCP (name 1-79 bytes, store/1/6/9/huffman-only, anywhere before IDAT), JPEG APP2 (1-255 chunks of 1..65519 bytes, ascending/descending/random order, SOF before/between/after, fillers interleaved; every permutation of <= 4 (quick) / 5 (thorough) chunks), WebP VP8X+ICCP (odd/even); no-profile variants; one damage class per case: PNG corrupt deflate (flips/truncation/adler), JPEG missing chunk / out-of-range number / inconsistent total, WebP flag without ICCP / truncated ICCP. Oracle: round trip; (nil,nil); for damage a reference model of the earliest legitimate stopping point (error mandatory before it, validity predicate after it); deflate damage judged by compress/zlib. non-trivial = distinct case with a damage class or a payload > 4096 bytes")
 	ev.Assume("harness builders; compress/zlib decides whether a damaged stream still inflates")
 	maxICC := ev.Pick(1<<20, 8<<20)
 	// all permutations of small chunk counts
